@@ -240,6 +240,8 @@ def ACC():
         'vec': (['Quaternion', 'UnitQuaternion'], lambda x: x.vec),
         'unit': (['Quaternion', 'UnitQuaternion'], lambda x: x.unit()),
         # conversions to another class: one converted value per value held
+        'interp(0.5)': (POSES + ['UnitQuaternion'], lambda x: x.interp(0.5) if type(x).__name__ != 'UnitQuaternion' else
+                        type(x)([q * (1.0 if q[0] >= 0 else -1.0) for q in x.data]).interp(0.5)),
         'to.UnitQuaternion': (P3, lambda x: S().UnitQuaternion(x)), 'to.SO3': (['UnitQuaternion'], lambda x: x.SO3()),
         'to.SE3': (['UnitQuaternion', 'SE2'], lambda x: x.SE3()), 'to.SE2': (['SO2'], lambda x: x.SE2()),
         'to.Twist': (['SE2', 'SE3'], lambda x: x.Twist3() if type(x).__name__ == 'SE3' else x.Twist2()),
@@ -320,6 +322,9 @@ def run_interp(ctx, p):
     """interp over a vector of s on a single-valued pose gives the corresponding sequence"""
     c, A, svec = p['cls'], p['A'], p['s']
     sig = dict(api='%s.interp' % c)
+    if c == 'UnitQuaternion':
+        # interpolation from the identity along the arc actually taken; (nearly) antipodal pairs are outside C11's domain
+        A = [np.asarray(a, dtype=np.float64) * (1.0 if np.asarray(a)[0] >= 0 else -1.0) for a in A]
     try:
         X = mk(c, A)
         res = X.interp(np.array(svec))
@@ -327,7 +332,7 @@ def run_interp(ctx, p):
     except Exception as e:
         ctx.bad('accessor', dict(sig, kind='raised_on_sequence', exc=type(e).__name__), '%s.interp(vector s) raised %r' % (c, e))
         return
-    ok = hasattr(res, 'data') and len(res.data) == len(svec) and all(same(res.data[i], s.data[0]) for i, s in enumerate(singles))
+    ok = hasattr(res, 'data') and len(res.data) == len(svec) and all(close(res.data[i], s.data[0]) for i, s in enumerate(singles))
     ctx.judge('accessor', ok, dict(sig, kind='not_per_element'),
               lambda: '%s.interp(%s) has %d elements / differs from per-s interpolation' % (c, svec, len(getattr(res, 'data', []))))
     ctx.cell('acc', c, 'interp', len(svec))
@@ -483,7 +488,7 @@ def run(ctx):
                     continue
                 for _ in range(reps):
                     drive(RUNNERS, ctx, 'acc', dict(cls=c, acc=name, A=elements(rng, c, m)))
-    for c in POSES:
+    for c in POSES + ['UnitQuaternion']:
         for k in range(2, 6):
             i += 1
             if not ctx.mine(i):
